@@ -559,6 +559,30 @@ def r9_one_ordered_queue_into_the_send_task(ctx):
     R.check(len(hf) == 1, "C18.R9", "send_task:one-intake", "send_task has one intake for handle_frontend_messages", "send_task feeds handle_frontend_messages from %d places: messages from different sources are no longer handled in one order" % len(hf), where(hf[1]) if len(hf) > 1 else "%s:%d" % (st_b.file, st_b.lo))
 
 
+
+def r10_explicit_unsubscribe_is_not_best_effort(ctx):
+    """`after unsubscribe ... the bookkeeping returns to empty`: Drop may only *try* to tell the background task (it cannot
+    wait), and relies on the next notification to clean up. The explicit Subscription::unsubscribe() can wait, and does:
+    it hands SubscriptionClosed / UnregisterNotification over with the waiting `Sender::send` - not with try_send, which
+    silently drops the message when the front-end queue is full (the subscription then stays in the manager, no
+    unsubscribe is written, and unsubscribe() itself waits for a stream end that never comes)."""
+    F, R = ctx.F, ctx.R
+    b = F.one(r"^jsonrpsee_core::client::Subscription::<Notif>::unsubscribe::\{closure#0\}$")
+    fam = [b]
+    for c in b.calls:
+        nm = c.name() or ""
+        if re.match(r"^jsonrpsee_core::client::Subscription::<.*>::\w+$", nm):
+            for t in (F.bodies.get(nm), F.bodies.get(nm + "::{closure#0}")):
+                if t is not None and t not in fam:
+                    fam.append(t)
+    waits, tries = [], []
+    for x in fam:
+        R.fn(x)
+        waits += [c for c in x.calls_to(r"mpsc::(bounded::)?Sender::<.*>::send$")]
+        tries += [c for c in x.calls_to(r"mpsc::(bounded::)?Sender::<.*>::(try_send|try_reserve\w*)$")]
+    R.check(bool(waits) and not tries, "C18.R10", "unsubscribe:waits-for-the-queue", "Subscription::unsubscribe hands its message over with the waiting send", "Subscription::unsubscribe hands its message to the background task with a non-waiting try_send%s: with the front-end queue full the message is dropped, the subscription (entry, reverse lookup, reserved unsubscribe id) stays in the request manager and no unsubscribe call is sent" % ("" if tries else " / no waiting send at all"), where(tries[0]) if tries else "%s:%d" % (b.file, b.lo))
+
+
 def rarr_every_element(ctx):
     """an array message is processed element by element to the end"""
     from .common import array_elements_all_processed
@@ -586,7 +610,7 @@ def rkeys_manager_keys_not_derived(ctx):
     manager_keys_not_derived(ctx, "C18.KEYS")
 
 
-RULES = [r9_one_ordered_queue_into_the_send_task, r7_failed_write_ends_the_task, r8_handoff_queue_is_lossless, r1_effect_summaries, r2_ledger, r3_notification_arms, r4_lost_drop_is_recovered, r5_no_unaccounted_success_path, r6_no_state_outside_the_manager, rarr_every_element, rkeys_manager_keys_not_derived] + BORROWED
+RULES = [r10_explicit_unsubscribe_is_not_best_effort, r9_one_ordered_queue_into_the_send_task, r7_failed_write_ends_the_task, r8_handoff_queue_is_lossless, r1_effect_summaries, r2_ledger, r3_notification_arms, r4_lost_drop_is_recovered, r5_no_unaccounted_success_path, r6_no_state_outside_the_manager, rarr_every_element, rkeys_manager_keys_not_derived] + BORROWED
 
 LEVEL_TEXT = (
     "A ledger over the client's four private tables decided from the type-checked program: per-method effect summaries "
